@@ -17,6 +17,7 @@ import DC.Model.Spec
 import DC.Model.DSpec
 import DC.Model.OSpec
 import DC.Model.DjSpec
+import DC.Model.QSpec
 
 open DC
 
@@ -358,6 +359,44 @@ def runSpecOp (m : Spec.Dict) (cfg : Cfg) (kv : KV) : Except String (Spec.Dict Ã
   | "cull" => pure (Spec.cull m now)
   | other => throw s!"spec-method:{other}"
 
+/-- run one `qsop` line on the reference of C10 (DC.Model.QSpec: queues per prefix next to a
+dictionary): the same fields as an `op` line â€” push / pull / peek (`prefix`, `side`, `ttl`, `tag`,
+`read`, `et`, `tg`), the key-addressed calls and the bulk removals -/
+def runQSpecOp (q : QSpec.State) (cfg : Cfg) (kv : KV) : Except String (QSpec.State Ã— Out) := do
+  let meth := kv.getD "m" ""
+  let now â† match (kv.getD "now" "0").toInt? with | some n => pure n | none => throw "now"
+  let hexOpt (name : String) : Except String Bytes :=
+    match KV.get? kv name with
+    | none => pure []
+    | some "-" => pure []
+    | some h => match hexToBytes h with | some b => pure b | none => throw name
+  let kp â† hexOpt "kp"
+  let vp â† hexOpt "vp"
+  let E := obsE PyVal.none kp vp
+  let getV : Except String PyVal :=
+    match (KV.get? kv "v").bind parsePyVal with | some v => pure v | none => throw "v"
+  let ttl â† match parseOptInt (kv.getD "ttl" "n") with | some t => pure t | none => throw "ttl"
+  let tag â† match parseSqlVal (kv.getD "tag" "n") with | some t => pure t | none => throw "tag"
+  let read := parseBool (kv.getD "read" "0")
+  let et := parseBool (kv.getD "et" "0")
+  let tg := parseBool (kv.getD "tg" "0")
+  let pfx â† match optStr (kv.getD "prefix" "n") with | some p => pure p | none => throw "prefix"
+  match meth with
+  | "push" => do
+    let v â† getV
+    pure (QSpec.push q E cfg now v pfx (kv.getD "side" "back" == "back") ttl read tag)
+  | "pull" => pure (QSpec.pull q E cfg now pfx (kv.getD "side" "front" == "front") et tg)
+  | "peek" => pure (QSpec.peek q E cfg now pfx (kv.getD "side" "front" == "front") et tg)
+  | "clear" => pure (QSpec.step q cfg .clear)
+  | "evict" => pure (QSpec.step q cfg (.evict tag))
+  | "expire" => pure (QSpec.step q cfg (.expire now))
+  | "cull" => pure (QSpec.step q cfg (.cull now))
+  | _ =>
+    -- the key-addressed calls: the reference dictionary of C03 on the dictionary part
+    match runSpecOp q.dict cfg kv with
+    | .ok (m, out) => pure ({ q with dict := m }, out)
+    | .error e => throw e
+
 /-! ### `check` protocol -/
 
 def splitList (s : String) (sep : String) : List String :=
@@ -533,6 +572,7 @@ def answerAv (kv : KV) : String :=
 structure DState where
   cache : Cache := {}
   spec : Spec.Dict := []
+  qspec : QSpec.State := {}
   dspec : DSpec.DList := {}
   jspec : Spec.Dict := []
   jconf : DjSpec.Conf := {}
@@ -921,7 +961,7 @@ def answer (st : DState) (line : String) : DState Ã— String :=
     match parseCfg rest with
     | some c =>
       let stats := parseBool (KV.getD rest "stats" "0")
-      ({ st with cache := { cfg := c, statistics := stats }, spec := [] }, "ok")
+      ({ st with cache := { cfg := c, statistics := stats }, spec := [], qspec := {} }, "ok")
     | none => (st, "bad-op cfg")
   | ("state", _) :: _ => (st, "state " ++ renderState st.cache)
   | ("op", _) :: rest =>
@@ -933,6 +973,10 @@ def answer (st : DState) (line : String) : DState Ã— String :=
   | ("sop", _) :: rest =>
     match runSpecOp st.spec st.cache.cfg rest with
     | .ok (m, out) => ({ st with spec := m }, "ret " ++ renderOut out)
+    | .error e => (st, "bad-op " ++ e)
+  | ("qsop", _) :: rest =>
+    match runQSpecOp st.qspec st.cache.cfg rest with
+    | .ok (q, out) => ({ st with qspec := q }, "ret " ++ renderOut out)
     | .error e => (st, "bad-op " ++ e)
   | ("dsop", _) :: rest =>
     match parseLArgs rest with
